@@ -178,6 +178,9 @@ class NestedQueryPostprocessingTransformation(QueryPostprocessingTransformation)
         query = self._nested_pipeline.postprocess_query(rule, query)
         if self._pipeline is not None:
             self._pipeline.applied_ids.update(self._nested_pipeline.applied_ids)
+        # The nested pipeline is never applied to a rule itself, so nothing else resets its tracking:
+        # without this the identifiers of nested items applied to earlier rules are reported again.
+        self._nested_pipeline.applied_ids = set()
         return query
 
 
